@@ -357,6 +357,68 @@ async fn post_handshake(ctx: &mut Ctx, ty: &str, cut: &str, fault: &str, order: 
     }
 }
 
+/// A peer comes back under the identity it announced while the socket still holds its old
+/// connection (ended but not yet noticed, or even still open - a half-open leftover): the
+/// old connection must be released, the new one must work, nobody else is disturbed.
+async fn replaced(ctx: &mut Ctx, ty: &str, old_state: &str, nlive: usize, case: &Value) {
+    let sig = |k: &str| format!("C16/{k}/{ty}");
+    let mut sock = Sock::new(ty, None);
+    let old = match Peer::attach(&sock, peer_type_for(ty), Some(b"same-identity")).await {
+        Ok(p) => p,
+        Err(e) => {
+            ctx.inconclusive(format!("C16 attach: {e}"));
+            return;
+        }
+    };
+    let mut live = Vec::new();
+    for k in 0..nlive {
+        match Peer::attach(&sock, peer_type_for(ty), Some(format!("live{k}").as_bytes())).await {
+            Ok(p) => live.push(p),
+            Err(e) => {
+                ctx.inconclusive(format!("C16 attach: {e}"));
+                return;
+            }
+        }
+    }
+    if old_state == "parked" && sock.can_recv() && ty != "REQ" {
+        let _ = recv_now(&mut sock).await; // the old connection's waker is registered
+    }
+    match old_state {
+        "ended-unnoticed" | "parked" => old.conn.close_full(EndKind::Eof),
+        _ => {} // "half-open": the peer is gone but nothing tells the socket
+    }
+    let newp = match Peer::attach(&sock, peer_type_for(ty), Some(b"same-identity")).await {
+        Ok(p) => p,
+        Err(e) => {
+            ctx.violation_with(&sig("reconnect-rejected"), e, case.clone());
+            return;
+        }
+    };
+    ctx.count("connections_replaced_by_a_reconnect");
+    sim::settle().await;
+    if !old.conn.released_both() {
+        ctx.violation_with(
+            &sig("not-released/replaced-connection"),
+            format!(
+                "a peer reconnected under its identity ({old_state}); the old connection is still held: reader dropped={}, writer dropped={}",
+                old.conn.reader_dropped(),
+                old.conn.writer_dropped()
+            ),
+            case.clone(),
+        );
+        return;
+    }
+    if sim::live_tasks() > if ty == "PUB" { 1 + nlive } else { 0 } {
+        ctx.violation_with(&sig("task-left-for-replaced-connection"), format!("{} library tasks alive for {} connections", sim::live_tasks(), 1 + nlive), case.clone());
+        return;
+    }
+    let mut all: Vec<&Peer> = vec![&newp];
+    all.extend(live.iter());
+    if let Err(why) = exchange_all(&mut sock, &all, 60).await {
+        ctx.violation_with(&sig("live-peer-disturbed"), format!("after a reconnect under the same identity ({old_state}): {why}"), case.clone());
+    }
+}
+
 /// The connection ends during the handshake.
 async fn mid_handshake(ctx: &mut Ctx, ty: &str, off: usize, fault: &str, nlive: usize, case: &Value) {
     let sig = |k: &str| format!("C16/{k}/{ty}");
@@ -445,6 +507,11 @@ impl Prop for C16 {
                     }
                 }
             }
+            for old_state in ["ended-unnoticed", "parked", "half-open"] {
+                for nlive in [0usize, 2] {
+                    v.push(json!({"kind": "replaced", "ty": ty, "old": old_state, "live": nlive}));
+                }
+            }
             for fault in ["close", "reset", "protocol-error", "write-error"] {
                 for nlive in [0usize, 2] {
                     v.push(json!({"kind": "hs_batch", "ty": ty, "fault": fault, "live": nlive}));
@@ -476,6 +543,11 @@ impl Prop for C16 {
             "post" => {
                 ctx.eval(1, true);
                 sim::run(post_handshake(ctx, &ty, s(case, "cut"), s(case, "fault"), s(case, "order"), u(case, "live") as usize, case));
+            }
+            "replaced" => {
+                ctx.eval(hash_str(&case.to_string()), true);
+                ctx.sample("replaced", || case.clone());
+                sim::run(replaced(ctx, &ty, s(case, "old"), u(case, "live") as usize, case));
             }
             "hs_batch" => {
                 for off in HS_CUTS {
@@ -527,6 +599,7 @@ impl Prop for C16 {
             ("errors_per_event/1", 100),
             ("released_after_observation", 0),
             ("handshake_failed_cleanly", 300),
+            ("connections_replaced_by_a_reconnect", 50),
         ];
         for c in [
             "cut/between-messages",
